@@ -211,8 +211,11 @@ def reference(prog, pred, budget=150000):
     return 'ok', cols, exp, info
 
 
+D11_FAMILY = ('circular dependency of', 'Found no way to assign variables')
+
+
 def compiled_vs(cols, exp, text, pred, rules=None, flags=None, ordered=False,
-                quirk_prog=None, info=None, cols_any_order=False):
+                quirk_prog=None, info=None, cols_any_order=False, refusal_is_failure=False):
     """Compile `pred` of program text with the real pipeline, run on SQLite, compare
     with the expected (cols, rows).  -> (status, bucket, detail)."""
     info = info if info is not None else {}
@@ -224,6 +227,12 @@ def compiled_vs(cols, exp, text, pred, rules=None, flags=None, ordered=False,
         return 'inconclusive', 'sqlite_budget', ''
     except drive.DIAGNOSTICS as e:
         msg = first_line(e)
+        if not refusal_is_failure and any(x in msg for x in D11_FAMILY):
+            # the compiler refuses a valid generated program with the diagnostic of the
+            # open known finding D11 (variable elimination takes an equation / inclusion
+            # as the definition of a table-bound variable).  Accepting every valid program
+            # is C01's statement; the other properties do not assert anything here.
+            return 'inconclusive', 'refused_valid_program_D11_family', ''
         return 'fail', 'rejected_valid:%s:%s' % (type(e).__name__, msg_class(msg)), \
             'compiler refused a valid program: %s\n%s\n--- predicate %s\n%s' % (
                 type(e).__name__, msg, pred, text)
@@ -263,7 +272,8 @@ def compiled_vs(cols, exp, text, pred, rules=None, flags=None, ordered=False,
     return 'ok', None, ''
 
 
-def run_and_compare(prog, pred, text=None, flags=None, ordered=False, rules=None):
+def run_and_compare(prog, pred, text=None, flags=None, ordered=False, rules=None,
+                    refusal_is_failure=False):
     """Evaluate pred with the reference and with the compiler+SQLite.
     Returns (status, bucket, detail, info), status in ok | fail | inconclusive."""
     text = text or model.print_program(prog)
@@ -271,7 +281,8 @@ def run_and_compare(prog, pred, text=None, flags=None, ordered=False, rules=None
     if st != 'ok':
         return 'inconclusive', st, '', info
     st, bucket, detail = compiled_vs(cols, exp, text, pred, rules, flags, ordered,
-                                     quirk_prog=prog, info=info)
+                                     quirk_prog=prog, info=info,
+                                     refusal_is_failure=refusal_is_failure)
     return st, bucket, detail, info
 
 
